@@ -151,12 +151,7 @@ impl Drop for RelocMem {
         unsafe {
             RELOC_RELEASES += 1;
             if RELOC_EXPECT_EMPTY_ON_RELEASE {
-                let mut k = 0;
-                let mut live = 0i32;
-                while k < crate::elems::NID {
-                    live += crate::elems::LIVE[k] as i32;
-                    k += 1;
-                }
+                let live = crate::elems::TOTAL_LIVE;
                 crate::vp_assert!(live == 0, "VP: storage released while elements of the vector are still alive");
             }
         }
